@@ -109,6 +109,20 @@ def outcome_api(text, strict):
     return ("API", tuple(sorted({(e.code, e.field_path) for e in errs})))
 
 
+_REUSED = {}
+
+
+def outcome_api_reused(text):
+    """ONE Validator object per worker process serves every document ("validating twice gives the same answer" - also for an
+    object that validated other documents before)."""
+    sd = load_schema_by_name(SCHEMA)
+    doc = parse_with_warnings(text)[0]
+    v = _REUSED.setdefault("v", Validator(schema=None))
+    first = tuple(sorted({(e.code, e.field_path) for e in v.validate(doc, strict=False, section_schemas={sd.name: sd})}))
+    second = tuple(sorted({(e.code, e.field_path) for e in v.validate(doc, strict=False, section_schemas={sd.name: sd})}))
+    return ("API", first, second)
+
+
 def outcome_write(text, path):
     r = sl.call("w", target_path=path, content=text, schema=SCHEMA, corrections_only=True, lenient=True)
     if r.get("status") != "success":
@@ -124,8 +138,10 @@ def outcomes(text):
     try:
         res["api:strict"] = outcome_api(text, True)
         res["api:lax"] = outcome_api(text, False)
+        ru = outcome_api_reused(text)
+        res["api:reused-object"] = ("API", ru[1]) if ru[1] == ru[2] == res["api:lax"][1] else ("API-REUSED-OBJECT-DIFFERS", ru[1], ru[2], res["api:lax"][1])
     except (LexerError, ParserError) as e:
-        res["api:strict"] = res["api:lax"] = ("ERROR", (type(e).__name__,))
+        res["api:strict"] = res["api:lax"] = res["api:reused-object"] = ("ERROR", (type(e).__name__,))
     res["write"] = outcome_write(text, sl.workfile("w9"))
     return res
 
@@ -183,6 +199,55 @@ def check_doc(case) -> Res:
             seen.add(v["descriptor"])
             uniq.append(v)
     return Res("ok" if not viol else "violations", extra_nontrivial=texts, violations=uniq, transitions=steps)
+
+
+FM_BODY = [A("NAME", S("x")), B("B1", [A("L", Lst(S("a"), S("b c", "quoted")))])]
+FM_META = [("TYPE", S("SKILL")), ("VERSION", S("1.0", "quoted")), ("STATUS", S("ACTIVE"))]
+FM_VARIANTS = {
+    "valid": 'name: x\ndescription: y\nallowed-tools: ["Read"]', "missing-tools": "name: x\ndescription: y", "missing-two": "name: x",
+    "type-error": "name: 5\ndescription: y\nallowed-tools: [\"Read\"]", "indented-2": '  name: x\n  description: y\n  allowed-tools: ["Read"]',
+    "indented-4-missing": "    name: x\n    description: y", "indented-type-error": "  name: x\n  description: [1, 2]\n  allowed-tools: [\"Read\"]",
+    "blank-lines-around": '\nname: x\ndescription: y\nallowed-tools: ["Read"]\n', "nested-mapping": 'name: x\ndescription: y\nallowed-tools:\n  - Read\n  - Grep',
+    "comment-first": '# c\nname: x\ndescription: y\nallowed-tools: ["Read"]', "unparseable": "name: [x\ndescription: y",
+}
+
+
+def fm_docs():
+    return [(f"FM:{k}", Doc(FM_BODY, name="SKILLDOC", meta=FM_META, separator=True, frontmatter=v)) for k, v in FM_VARIANTS.items()]
+
+
+def check_frontmatter(case) -> Res:
+    """schemas that look at the YAML frontmatter (packaged SKILL): x, every single-site respelling, canonical(x), canonical(canonical(x))."""
+    label, d = case
+
+    def oc(text):
+        return {p: outcome_validate(sl.call("v", content=text, schema="SKILL", profile=p)) for p in PROFILES}
+
+    x0 = render(d, {}).text
+    base = oc(x0)
+    viol, texts = [], []
+    cs0 = dict(label=label, doc=d, choices={})
+    try:
+        c1 = emit(parse_with_warnings(x0)[0])
+        compare(base, oc(c1), viol, cs0, "canonical-text")
+        c2 = emit(parse(c1))
+        compare(base, oc(c2), viol, cs0, "canonical-of-canonical")
+    except (LexerError, ParserError) as e:
+        viol.append(dict(descriptor="canonical-unreadable", case=cs0, observed=str(e), expected="readable"))
+    choices, how = choice_space(d, 0)
+    for ch in choices:
+        if len(ch) != 1:
+            continue
+        r = render(d, ch)
+        texts.append(r.text)
+        compare(base, oc(r.text), viol, dict(label=label, doc=d, choices={str(k): v for k, v in ch.items()}), kinds_of(ch, r.sites))
+    uniq, seen = [], set()
+    for v in viol:
+        if v["descriptor"] not in seen:
+            seen.add(v["descriptor"])
+            uniq.append(v)
+    st = base["STANDARD"][0]
+    return Res("ok" if not viol else "violations", nontrivial=(label, st), extra_nontrivial=texts, violations=uniq, transitions=4 * (len(texts) + 3))
 
 
 def check_text_variant(case) -> Res:
@@ -252,6 +317,7 @@ def run(ctx):
                               "schema_fields": [f[0] + ":" + f[2] for f in FIELDS]}
     ctx.explore("respell", docs, check_doc, chunk=1)
     ctx.explore("number_spellings", sorted(TEXT_VARIANTS), check_text_variant, chunk=1)
+    ctx.explore("frontmatter", fm_docs(), check_frontmatter, chunk=1)
     ctx.explore("cli", cli_docs(), check_cli, chunk=1)
     sl.cleanup()
 
